@@ -21,7 +21,13 @@ fn child_poll(id: u32, addr: usize, cx: &mut Context<'_>, stream: bool) -> (Stri
         let step = match step {
             Some(s) => s,
             None => {
-                let resp = if !w.draining {
+                let resp = if w.ready.contains(&id) {
+                    if stream {
+                        "E"
+                    } else {
+                        "R"
+                    }
+                } else if !w.draining {
                     "P"
                 } else if !stream {
                     "R"
